@@ -153,6 +153,11 @@ def words_scope(res, pid, rng, tier):
                              if any(s.lower() in w for s in words))
         lines = [gen_word_line(rng, words, conflicting[:8]) for _ in range(60 if tier == "thorough" else 30)]
         lines += ["%s %s\n" % (rand_case(rng, c), words[0]) for c in conflicting[:6]]
+        # a listed word inside a token that is shaped like an address (zone id of a link-local address, host name glued to a dotted quad)
+        # (not in the --undo rounds: there the address stages rewrite these tokens)
+        for w_ in ([] if cfg.undo else [w for w in words if re.fullmatch(r"[A-Za-z0-9]+", w)][:3]):
+            lines += ["ipv6 route 2001:db8:77::/48 fe80::2%%%s0\n" % w_.lower(), " neighbor fe80::1%%%s remote-as 65001\n" % rand_case(rng, w_),
+                      "ip host %s 10.1.2.3 fe80::a%%%s/64\n" % (w_, w_), "set interfaces xe-0/0/0 unit 0 family inet6 address fe80::%s:1%%%s\n" % ("beef", w_.upper())]
         # the theorem's hypotheses per listed word: the model's computable check against an independent one
         lw = sorted(set(w.lower() for w in words), key=lambda x: (-len(x), x))
         thy = {w: word_hypotheses(w) for w in lw}
@@ -520,6 +525,27 @@ def as_scope(res, pid, rng, tier):
         if not ok:
             fails.append({"kind": "text outside listed standalone numbers changed, or a listed standalone number was not replaced",
                           "cfg": cfg.describe(), "line": ln, "output": out})
+    # a run without a salt: the salt that the anonymizer generated (and reports) is the key of its AS replacements too
+    from netconan.anonymize_files import FileAnonymizer as _FA
+    from netconan.sensitive_item_removal import AsNumberAnonymizer as _AN
+    nums0 = AS_LISTS[res.seed % len(AS_LISTS)][:6]
+    txt0 = "".join("router bgp %s\n neighbor 10.0.0.1 remote-as %s\n" % (n_, n_) for n_ in nums0)
+    try:
+        with fa.LogCap():
+            a0 = _FA(anon_pwd=False, anon_ip=False, salt=None, as_numbers=list(nums0))
+            o0 = io.StringIO()
+            a0.anonymize_io(io.StringIO(txt0), o0)
+            a1 = _FA(anon_pwd=False, anon_ip=False, salt=a0.salt, as_numbers=list(nums0))
+            o1 = io.StringIO()
+            a1.anonymize_io(io.StringIO(txt0), o1)
+            ref0 = _AN(list(nums0), a0.salt)
+        res.evaluations += 2 * len(nums0)
+        exp0 = "".join("router bgp %s\n neighbor 10.0.0.1 remote-as %s\n" % (ref0.anonymize(n_), ref0.anonymize(n_)) for n_ in nums0)
+        if o0.getvalue() != o1.getvalue() or (o0.getvalue() != exp0 and len(set(nums0)) == len(nums0) and not any(a_ in b_ and a_ != b_ for a_ in nums0 for b_ in nums0)):
+            fails.append({"kind": "AS replacements of a run without --salt are not keyed by the salt the run generated and reported",
+                          "as_numbers": nums0, "generated_salt": a0.salt, "output": o0.getvalue()[:300], "output_of_a_run_with_that_salt": o1.getvalue()[:300]})
+    except Exception as e:  # noqa
+        fails.append({"kind": "AS anonymization without a salt raised", "as_numbers": nums0, "exc": repr(e)[:200]})
     return dis, fails
 
 
